@@ -289,3 +289,32 @@ def run (cfg : FsCfg) : Dir → List Op → Dir × List Out
     (s2, o :: os)
 
 end Pg.C05
+
+namespace Pg.C05
+
+/-! ### Several in-memory mounts (`add_file_system(prefix, MemoryFileSystem(prefix))`): one tree each -/
+
+/-- An operation addressed to mount A (`false`) or mount B (`true`), with the path already made
+relative to the mount (each `MemoryFileSystem` strips its own prefix). -/
+abbrev MOp := Bool × Op
+
+def mstep (cfg : FsCfg) (s : Dir × Dir) (m : MOp) : (Dir × Dir) × Out :=
+  if m.1 then
+    let r := step cfg s.2 m.2
+    ((s.1, r.1), r.2)
+  else
+    let r := step cfg s.1 m.2
+    ((r.1, s.2), r.2)
+
+def mrun (cfg : FsCfg) : Dir × Dir → List MOp → (Dir × Dir) × List (Bool × Out)
+  | s, [] => (s, [])
+  | s, m :: ms =>
+    let r := mstep cfg s m
+    let rest := mrun cfg r.1 ms
+    (rest.1, (m.1, r.2) :: rest.2)
+
+/-- The operations / outputs that belong to one mount. -/
+def opsOf (b : Bool) (ms : List MOp) : List Op := (ms.filter (fun m => m.1 == b)).map (·.2)
+def outsOf (b : Bool) (os : List (Bool × Out)) : List Out := (os.filter (fun o => o.1 == b)).map (·.2)
+
+end Pg.C05
